@@ -1,16 +1,33 @@
 (* C01 property theorems: statements only, each closed by `exact`, Print Assumptions beneath.
 
    The full statement (C01_full) is compiler correctness of the converter model for every program of
-   Script.Syntax; what is proved is stage S1 (straight-line programs: any expression nesting, literals
-   with their static CastLike, calls of operators and of other script functions, tuple assignment from
-   multi-output calls, re-assignment, aliasing, several return values with the Identity copies for returned
-   inputs / duplicates).  Stages S2 (if/else), S3 (for/while/break) and S4 (attribute parameters) are not
-   proved: for those the evidence is the skeleton correspondence and the four-way direct oracle of
-   harness/c01.py only. *)
+   Script.Syntax.  Proved:
+   * stage S1 (C01_graph_eq_python_straightline_partial): straight-line programs -- any expression nesting,
+     literals with their static CastLike, calls of operators and of other script functions, tuple assignment from
+     multi-output calls, re-assignment, aliasing, several return values with the Identity copies for returned
+     inputs / duplicates;
+   * stage S2 (C01_graph_eq_python_ifelse_partial): bodies of assignments, tuple assignments and if/else
+     statements nested to any depth (constant conditions included) followed by one return, where no variable holds
+     a Python scalar (class s2_stmt); the simulation invariant is restricted to the live variables of the
+     generated liveness analysis.
+   * stage S3, first part (C01_graph_eq_python_forloop_partial): in addition, `for` loops over a tensor bound at the
+     top level of the body, with a body of assignments, under decidable side conditions on the sets the generated
+     analysis computes for the loop (class s3_pre / loop_ok; two of the conditions exclude exactly the programs that
+     hit the liveness defects of the code: loop bound not live, live-out variable not live-in).
+   Not proved: the rest of stage S3 (while, break, loops nested in control flow, if/tuple statements inside a loop
+   body, literal loop bounds), stage S4 (attribute parameters), and S2 programs in which a variable holding a Python
+   scalar is merged by an if (there the graph loses the CastLike promotion the Python reading performs): for those
+   the evidence is the skeleton correspondence and the four-way direct oracle of harness/c01.py only.
+
+   About the generated analysis (Gen/Analysis.v): assigned_vars is sound for every statement form; liveness and
+   exposed_uses are sound for loop-free code (..._loopfree_partial) and refuted for `for` loops
+   (C01_live_in_sound_for_bound_refuted: the loop bound is not live; C01_exposed_uses_zero_trip_refuted: the loop
+   variable after zero iterations); `while` loops are not covered by a theorem. *)
 From Coq Require Import List String ZArith Bool.
 Require Import OV.Graph.Syntax OV.Graph.Sem OV.Script.Syntax OV.Script.Sets OV.Gen.Analysis OV.Gen.ScriptTables
                OV.Script.Translate OV.Script.PySem OV.Script.TranslateProofs OV.Script.TablesProofs OV.Script.TranslateExamples
-               OV.Script.AnalysisProofs.
+               OV.Script.AnalysisProofs OV.Script.LivenessProofs OV.Script.TranslateIfProofs OV.Script.TranslateIfExamples OV.Script.ExposedProofs
+               OV.Script.TranslateForDefs OV.Script.TranslateForProofs OV.Script.TranslateForExamples.
 Import ListNotations.
 Local Open Scope string_scope.
 
@@ -60,6 +77,81 @@ Theorem C01_straightline_nonvacuous :
 Proof. exact ex_hyps. Qed.
 Print Assumptions C01_straightline_nonvacuous.
 
+(* S2: bodies made of assignments, tuple assignments and if/else statements nested to any depth (conditions that
+   the analysis treats as constant included), then one return.  `s2_stmt globals cic` is the class: right-hand sides
+   and if-conditions are S1 expressions other than a bare literal / the bare name of a module-level constant (so
+   every variable holds a tensor).  The listing order of the Python sets (`orders`) is universally quantified, the
+   kernels are arbitrary (Identity being the identity), `cic` is any table of constant conditions that is sound.
+   The graph is evaluated with fuel at least the converter's nesting bound. *)
+Theorem C01_graph_eq_python_ifelse_partial :
+  forall (V : Type) sem truth trip of_nat of_bool limit while_limit globals,
+    (forall v : V, sem "" "Identity" [] [Some v] = Some [v]) ->
+    forall cic afuel orders f g xs vs fuel2 k pre es,
+      (forall c b pe v, cic c = Some b -> eval_expr V sem globals pe c = Some v -> ptruth V truth v = Some b) ->
+      f_body f = (pre ++ [SReturn es])%list -> forallb (s2_stmt globals cic) pre = true -> forallb expr_ok es = true ->
+      f_aparams f = [] -> NoDup (f_tparams f) ->
+      translate false globals cic afuel orders f = Some g ->
+      eval_script V sem truth trip of_nat while_limit globals (S fuel2) f xs = Some vs ->
+      stmt_depth_fuel <= S k ->
+      eval_graph V sem truth trip of_nat of_bool limit (S k) [] g xs = Some vs.
+Proof. exact translate_ifelse_correct. Qed.
+Print Assumptions C01_graph_eq_python_ifelse_partial.
+
+(* the hypotheses are satisfiable on a non-trivial instance: `a` defined before the if and re-assigned in the then
+   branch only (the else branch copies it), `b` defined in both branches, a nested if/else in the else branch one
+   side of which does not assign `b`, `d` assigned but not live afterwards; one If node at top level; the source and
+   (as the theorem says) the graph evaluate to the same values on the three paths *)
+Theorem C01_ifelse_nonvacuous :
+  exists g pre es,
+    f_body exif_f = (pre ++ [SReturn es])%list /\ forallb (s2_stmt [] (fun _ => None)) pre = true /\ forallb expr_ok es = true /\
+    f_aparams exif_f = [] /\ NoDup (f_tparams exif_f) /\
+    translate false [] (fun _ => None) 5 [] exif_f = Some g /\
+    count_if (g_nodes g) = 1 /\
+    exif_script [5%Z; 3%Z; 1%Z] = Some [47%Z; 40%Z] /\ exif_graph g [5%Z; 3%Z; 1%Z] = Some [47%Z; 40%Z] /\
+    exif_script [5%Z; 3%Z; 0%Z] = Some [18%Z; 8%Z] /\ exif_graph g [5%Z; 3%Z; 0%Z] = Some [18%Z; 8%Z] /\
+    exif_script [5%Z; 0%Z; 0%Z] = Some [5%Z; 5%Z] /\ exif_graph g [5%Z; 0%Z; 0%Z] = Some [5%Z; 5%Z].
+Proof. exact exif_hyps. Qed.
+Print Assumptions C01_ifelse_nonvacuous.
+
+(* S3, first part: `for i in range(bound)` loops at the top level of a body whose other statements are of the S2
+   class.  `s3_pre globals cic afuel pre [SReturn es] []` is the class: every `for` satisfies loop_ok at its
+   program point -- tensor-valued bound, body made of assignments of tensor-valued S1 expressions, and seven
+   decidable conditions on the sets the generated analysis computes for the loop (the bound and the loop state are
+   live before the loop: C1, C2 -- these fail exactly on programs hitting the two liveness defects of the code; what
+   the body reads and is not state is not assigned in the body; the loop variable is not assigned in the body and
+   not used after the loop; no state variable shadows a module-level constant).  The Loop node is evaluated by
+   induction on the trip count (zero included).  Extra kernel law: truth (of_bool b) = Some b. *)
+Theorem C01_graph_eq_python_forloop_partial :
+  forall (V : Type) sem truth trip of_nat of_bool limit while_limit globals,
+    (forall v : V, sem "" "Identity" [] [Some v] = Some [v]) ->
+    (forall b, truth (of_bool b) = Some b) ->
+    forall cic afuel orders f g xs vs fuel2 k pre es,
+      (forall c b pe v, cic c = Some b -> eval_expr V sem globals pe c = Some v -> ptruth V truth v = Some b) ->
+      f_body f = (pre ++ [SReturn es])%list -> s3_pre globals cic afuel pre [SReturn es] [] = true -> forallb expr_ok es = true ->
+      f_aparams f = [] -> NoDup (f_tparams f) ->
+      translate false globals cic afuel orders f = Some g ->
+      eval_script V sem truth trip of_nat while_limit globals (S fuel2) f xs = Some vs ->
+      stmt_depth_fuel <= S k ->
+      eval_graph V sem truth trip of_nat of_bool limit (S k) [] g xs = Some vs.
+Proof. exact translate_forloop_correct. Qed.
+Print Assumptions C01_graph_eq_python_forloop_partial.
+
+(* the hypotheses are satisfiable on a non-trivial instance: an if/else, then a `for` over a tensor bound carrying
+   two variables (both read and written in the body, one through a value captured from outside the loop), the bound
+   used again after the loop; one Loop and one If node; source and graph agree for trip counts 3 and 0 *)
+Theorem C01_forloop_nonvacuous :
+  (forall b, exif_truth (exfor_of_bool b) = Some b) /\
+  exists g pre es,
+    f_body exfor_f = (pre ++ [SReturn es])%list /\ s3_pre [] (fun _ => None) 5 pre [SReturn es] [] = true /\
+    forallb expr_ok es = true /\ f_aparams exfor_f = [] /\ NoDup (f_tparams exfor_f) /\
+    translate false [] (fun _ => None) 5 [] exfor_f = Some g /\
+    count_op "Loop" (g_nodes g) = 1 /\ count_op "If" (g_nodes g) = 1 /\
+    exfor_script [2%Z; 3%Z; 3%Z; 1%Z] = Some [127%Z; 6%Z] /\ exfor_graph g [2%Z; 3%Z; 3%Z; 1%Z] = Some [127%Z; 6%Z] /\
+    exfor_script [2%Z; 3%Z; 0%Z; 1%Z] = Some [7%Z; 6%Z] /\ exfor_graph g [2%Z; 3%Z; 0%Z; 1%Z] = Some [7%Z; 6%Z] /\
+    exfor_script [2%Z; 3%Z; 3%Z; 0%Z] = Some [70%Z; 3%Z] /\ exfor_graph g [2%Z; 3%Z; 3%Z; 0%Z] = Some [70%Z; 3%Z].
+Proof. exact exfor_hyps. Qed.
+Print Assumptions C01_forloop_nonvacuous.
+
 (* the converter's operator table and eager mode's Tensor methods (both regenerated from the source) name the
    same ONNX operator for every Python operator except `%` (and except and/or/not, which Python cannot overload) *)
 Theorem C01_operator_tables_agree_partial :
@@ -92,29 +184,113 @@ Theorem C01_assigned_vars_sound :
 Proof. exact OV.Script.AnalysisProofs.assigned_vars_sound. Qed.
 Print Assumptions C01_assigned_vars_sound.
 
-(* liveness and exposed uses of the generated analysis: full statements, not proved (the direct oracle found the
-   unrepaired liveness of `for` unsound: the loop bound is not live) *)
+(* liveness of the generated analysis (Gen/Analysis.v = analysis.py as it is today).  The full statement: two
+   environments that agree on the variables live before a statement (and on the names K read by the conditions the
+   analysis treats as constant) run it to outcomes that agree on the variables live after it.  It is FALSE of the
+   code as it is: the liveness of `for i in range(n)` ignores the loop bound (known finding for-bound-not-live). *)
 Definition C01_live_in_sound_full : Prop :=
-  forall (V : Type) sem truth trip of_nat while_limit globals cic afuel,
+  forall (V : Type) sem truth trip of_nat while_limit globals cic afuel K,
+    (forall c b pe v, cic c = Some b -> eval_expr V sem globals pe c = Some v -> ptruth V truth v = Some b) ->
+    (forall c b, cic c = Some b -> incl (used_vars c) K) ->
     forall fuel s lo li pe1 pe2 o1,
       live_stmt cic afuel s lo = Some li ->
-      (forall x, In x li -> plookup V pe1 x = plookup V pe2 x) ->
+      (forall x, In x li \/ In x K -> plookup V pe1 x = plookup V pe2 x) ->
       exec_block V sem truth trip of_nat while_limit globals fuel [s] pe1 = Some o1 ->
       exists o2, exec_block V sem truth trip of_nat while_limit globals fuel [s] pe2 = Some o2 /\
         match o1, o2 with
-        | ONormal _ a, ONormal _ b | OBreak _ a, OBreak _ b => forall x, In x lo -> plookup V a x = plookup V b x
+        | ONormal _ a, ONormal _ b | OBreak _ a, OBreak _ b => forall x, In x lo \/ In x K -> plookup V a x = plookup V b x
         | OReturn _ v1, OReturn _ v2 => v1 = v2
         | _, _ => False
         end.
 
-Definition C01_exposed_uses_sound_full : Prop :=
-  forall (V : Type) sem truth trip of_nat while_limit globals cic,
-    forall fuel ss live pe1 pe2 o1,
-      (forall x, In x (exposed_block cic ss live) -> plookup V pe1 x = plookup V pe2 x) ->
-      exec_block V sem truth trip of_nat while_limit globals fuel ss pe1 = Some o1 ->
-      exists o2, exec_block V sem truth trip of_nat while_limit globals fuel ss pe2 = Some o2 /\
+(* proved part: loop-free statements (assignment, tuple assignment, return, if/else with constant and non-constant
+   conditions nested to any depth, `break` in tail position).  Missing: SFor (refuted below) and SWhile (not proved:
+   needs the fixpoint iteration of the generated analysis to be shown to reach a post-fixpoint). *)
+Theorem C01_live_in_sound_loopfree_partial :
+  forall (V : Type) sem truth trip of_nat while_limit globals cic afuel K,
+    (forall c b pe v, cic c = Some b -> eval_expr V sem globals pe c = Some v -> ptruth V truth v = Some b) ->
+    (forall c b, cic c = Some b -> incl (used_vars c) K) ->
+    forall fuel s lo li pe1 pe2 o1,
+      lf_stmt true s = true ->
+      live_stmt cic afuel s lo = Some li ->
+      (forall x, In x li \/ In x K -> plookup V pe1 x = plookup V pe2 x) ->
+      exec_block V sem truth trip of_nat while_limit globals fuel [s] pe1 = Some o1 ->
+      exists o2, exec_block V sem truth trip of_nat while_limit globals fuel [s] pe2 = Some o2 /\
         match o1, o2 with
-        | ONormal _ a, ONormal _ b | OBreak _ a, OBreak _ b => forall x, In x live -> plookup V a x = plookup V b x
+        | ONormal _ a, ONormal _ b | OBreak _ a, OBreak _ b => forall x, In x lo \/ In x K -> plookup V a x = plookup V b x
         | OReturn _ v1, OReturn _ v2 => v1 = v2
         | _, _ => False
         end.
+Proof. exact live_in_sound_loopfree_statement. Qed.
+Print Assumptions C01_live_in_sound_loopfree_partial.
+
+(* `for i in range(n): y = y + i` with y live afterwards: the generated analysis says only y is live before the loop;
+   environments that agree on y and differ on n (2 resp. 3) end with y = 1 resp. y = 3 *)
+Theorem C01_live_in_sound_for_bound_refuted :
+  exists li o1 o2,
+    live_stmt (fun _ => None) 5 forb_stmt ["y"] = Some li /\ ~ In "n" li /\
+    (forall x, In x li -> plookup Z forb_pe1 x = plookup Z forb_pe2 x) /\
+    forb_exec forb_pe1 = Some o1 /\ forb_exec forb_pe2 = Some o2 /\
+    match o1, o2 with
+    | ONormal _ a, ONormal _ b => plookup Z a "y" = Some (PT Z 1%Z) /\ plookup Z b "y" = Some (PT Z 3%Z)
+    | _, _ => False
+    end.
+Proof. exact live_in_sound_for_bound_refuted. Qed.
+Print Assumptions C01_live_in_sound_for_bound_refuted.
+
+Theorem C01_live_in_sound_full_refuted : ~ C01_live_in_sound_full.
+Proof. exact live_in_sound_full_refuted. Qed.
+Print Assumptions C01_live_in_sound_full_refuted.
+
+(* exposed uses of the generated analysis (what a loop body reads from outside): full statement -- FALSE of the code
+   as it is, see the zero-trip witness below *)
+Definition C01_exposed_uses_sound_full : Prop :=
+  forall (V : Type) sem truth trip of_nat while_limit globals cic K,
+    (forall c b pe v, cic c = Some b -> eval_expr V sem globals pe c = Some v -> ptruth V truth v = Some b) ->
+    (forall c b, cic c = Some b -> incl (used_vars c) K) ->
+    forall fuel ss live pe1 pe2 o1,
+      (forall x, In x (exposed_block cic ss live) \/ In x K -> plookup V pe1 x = plookup V pe2 x) ->
+      exec_block V sem truth trip of_nat while_limit globals fuel ss pe1 = Some o1 ->
+      exists o2, exec_block V sem truth trip of_nat while_limit globals fuel ss pe2 = Some o2 /\
+        match o1, o2 with
+        | ONormal _ a, ONormal _ b | OBreak _ a, OBreak _ b => forall x, In x live \/ In x K -> plookup V a x = plookup V b x
+        | OReturn _ v1, OReturn _ v2 => v1 = v2
+        | _, _ => False
+        end.
+
+(* proved part: loop-free blocks (there exposed_uses coincides with the liveness).  Missing: blocks containing loops. *)
+Theorem C01_exposed_uses_sound_loopfree_partial :
+  forall (V : Type) sem truth trip of_nat while_limit globals cic K,
+    (forall c b pe v, cic c = Some b -> eval_expr V sem globals pe c = Some v -> ptruth V truth v = Some b) ->
+    (forall c b, cic c = Some b -> incl (used_vars c) K) ->
+    forall fuel ss live pe1 pe2 o1,
+      lf_block true ss = true ->
+      (forall x, In x (exposed_block cic ss live) \/ In x K -> plookup V pe1 x = plookup V pe2 x) ->
+      exec_block V sem truth trip of_nat while_limit globals fuel ss pe1 = Some o1 ->
+      exists o2, exec_block V sem truth trip of_nat while_limit globals fuel ss pe2 = Some o2 /\
+        match o1, o2 with
+        | ONormal _ a, ONormal _ b | OBreak _ a, OBreak _ b => forall x, In x live \/ In x K -> plookup V a x = plookup V b x
+        | OReturn _ v1, OReturn _ v2 => v1 = v2
+        | _, _ => False
+        end.
+Proof. exact exposed_uses_sound_loopfree. Qed.
+Print Assumptions C01_exposed_uses_sound_loopfree_partial.
+
+(* `for i in range(n): y = y + i` run zero times with i live afterwards: i keeps its old value, but the analysis
+   exposes {y, n} only.  (In the converter the loop variable of a Loop node is not visible after the loop, so this does
+   not by itself miscompile; it is why the full statement cannot be proved as stated.) *)
+Theorem C01_exposed_uses_zero_trip_refuted :
+  exists o1 o2,
+    ~ In "i" (exposed_block (fun _ => None) [forb_stmt] ["i"]) /\
+    (forall x, In x (exposed_block (fun _ => None) [forb_stmt] ["i"]) -> plookup Z expz_pe1 x = plookup Z expz_pe2 x) /\
+    forb_exec expz_pe1 = Some o1 /\ forb_exec expz_pe2 = Some o2 /\
+    match o1, o2 with
+    | ONormal _ a, ONormal _ b => plookup Z a "i" = Some (PT Z 1%Z) /\ plookup Z b "i" = Some (PT Z 2%Z)
+    | _, _ => False
+    end.
+Proof. exact exposed_uses_zero_trip_refuted. Qed.
+Print Assumptions C01_exposed_uses_zero_trip_refuted.
+
+Theorem C01_exposed_uses_sound_full_refuted : ~ C01_exposed_uses_sound_full.
+Proof. exact exposed_uses_sound_full_refuted. Qed.
+Print Assumptions C01_exposed_uses_sound_full_refuted.
